@@ -187,12 +187,19 @@ impl<W: WorldOps> Engine<W> {
         if self.rep.failed() {
             return;
         }
-        let cands = self.forge_candidates(wi);
+        let mut cands = self.forge_candidates(wi);
+        if self.prof.api_subset < N_LOOKUPS {
+            // interpreter scale: a random handful of the candidates per step
+            while cands.len() > 5 {
+                let i = self.rng.below(cands.len());
+                cands.swap_remove(i);
+            }
+        }
         let debug = cfg!(debug_assertions);
         for f in cands {
             let a = self.archs[f.ai];
             let (expect, id_mismatch) = self.forge_expect(wi, &f);
-            let napi = if self.prof.api_subset < N_LOOKUPS { 3 } else { N_LOOKUPS };
+            let napi = if self.prof.api_subset < N_LOOKUPS { 2 } else { N_LOOKUPS };
             let start = self.rng.below(N_LOOKUPS);
             for j in 0..napi {
                 let api = (start + j) % N_LOOKUPS;
